@@ -13,6 +13,28 @@ SCHEMES = ["http", "https", "ftp", "untitled", "vscode-notebook-cell", "git", "g
            "data", "urn", "ws", "sip", "tel", "jar", "zip", "inmemory", "FILE", "File", "file", "files", "fil",
            "file+x", "f", "x-file", "", "1x", "a.b", "a-b", "http:file", "hdl", "itms-services"]
 
+# Dictionary of "meaningful" fragments that code tends to special-case; combined with exhaustive short tails
+# (class C18.dictionary_paths / dictionary_uris).  Hosts, path heads, reserved device names, URI spellings, and
+# characters that case-fold / NFKC-normalise / lower() to ASCII letters or to a different length (they exercise
+# str.lower(), re.IGNORECASE and urllib's NFKC check of the authority at once).
+D_HOSTS = ["localhost", "LOCALHOST", "LocalHost", "127.0.0.1", "::1", "[::1]", "wsl$", "wsl.localhost", "server",
+           "a.b", "a:80", "user@host", "xn--bcher-kva", ".", "..", "c:", "C:", "localhost.", "local%68ost", "file",
+           "\u212aost", "\uff4cocalhost", "\u0130", "stra\u00dfe"]
+D_HEADS = ["/c:", "/C:", "/c%3A", "/c%3a", "/tmp", "/.", "/..", "/~", "/home/user", "/CON", "/con", "/NUL", "/nul.txt",
+           "/AUX", "/PRN", "/COM1", "/LPT1", "/con:", "/localhost", "/file:", "/etc/passwd", "/dev/null", "/Z:", "/z:",
+           "/@:", "/[:", "/`:", "/{:", "/1:", "/cc:", "/c::"]
+D_FOLD = [0x212A, 0x017F, 0x0130, 0x0131, 0x00DF, 0xFB01, 0xFF21, 0xFF23, 0xFF41, 0xFF43, 0xFF5A, 0x1E9E, 0x00AA,
+          0x2126, 0x00B5, 0x0399, 0x1D400, 0x24B8, 0x2460, 0xFF0F, 0xFF1A, 0x2100]
+D_URIS = ["file:/x", "file://localhost/x", "file:///x", "FILE:///x", "file:////host/x", "file://LOCALHOST/x",
+          "file://LocalHost/x", "file://127.0.0.1/x", "file://[::1]/x", "file://::1/x", "file://wsl$/d/x",
+          "file://wsl.localhost/d/x", "file://localhost", "file://localhost/", "file://localhost/c:/x",
+          "file://localhost/C:/x", "file:///c%3A/x", "file:///C%3a/x", "file:c:/x", "file:/c:/x", "file:///c:", "file:///C:",
+          "file://user@host/x", "file://a:80/x", "file://server/share/x", "file://./x", "file://../x", "file:///./x",
+          "file:///../x", "file:///~/x", "file://%6cocalhost/x", "file://xn--bcher-kva/x", "file:///CON", "file:///tmp",
+          "file://\u212aost/x", "file:///\u212a:/x", "file:///\u017f:/x", "file:///%E2%84%AA:/x", "file:///%C5%BF:/x",
+          "file:///\uff23:/x", "file://localhost/\u212a:/x", "http://localhost/x", "http://[::1]/x", "http://[::1/x",
+          "vscode-remote://wsl+ubuntu/home/user", "untitled:Untitled-1", "file://LOCALHOST", "file://localhost:80/x"]
+
 RFC_RE = re.compile(r"^(([^:/?#]+):)?(//([^/?#]*))?([^?#]*)(\?([^#]*))?(#(.*))?", re.S)
 
 
@@ -90,7 +112,7 @@ class C18(core.Property):
             "longer paths; to cases: scheme list x tails, random URI strings; direct quote/unquote/urlparse/urlunparse "
             "comparisons with urllib.parse / pygls.uris on the same strings; uri_with on URIs from the path corpus x "
             "component replacements and on random URIs; with pygls.uris.IS_WIN patched to True: every string up to "
-            "length 4 over a 9-symbol Windows alphabet + random longer paths through from/to/from, to_fs_path on "
+            "length 3 (thorough 5) over a 9-symbol Windows alphabet + random longer paths through from/to/from, to_fs_path on "
             "random URIs; non-trivial = the string has a "
             "URI-significant or non-ASCII character")
     trusted_base = ["Coq 8.16.1 kernel incl. vm_compute (refutation witnesses, Examples, 256-octet table)",
@@ -118,10 +140,72 @@ class C18(core.Property):
             for t in itertools.product(ALPHA, repeat=n):
                 yield [47] + list(t)
 
+    @staticmethod
+    def tails(L):
+        """every string of length <= L over the property's alphabet"""
+        for n in range(L + 1):
+            for t in itertools.product(ALPHA, repeat=n):
+                yield list(t)
+
+    def dictionary_paths(self, L):
+        """dictionary fragments x exhaustive short tails: UNC hosts, path heads, case-folding characters in the
+        drive-letter position, in a host and inside the path"""
+        out = []
+        tl = list(self.tails(L))
+        for h in D_HOSTS:
+            hh = cps(h)
+            out.append([47, 47] + hh)
+            for t in tl:
+                out.append([47, 47] + hh + [47] + t)
+        for hd in D_HEADS:
+            hh = cps(hd)
+            for t in tl:
+                out.append(hh + t)
+                out.append(hh + [47] + t)
+        for x in D_FOLD:
+            for t in tl:
+                out.append([47, x, 58] + t)               # drive-letter position
+                out.append([47, x, 58, 47] + t)
+                out.append([47, x] + t)
+                out.append([47, 97, x, 58] + t)
+                out.append([47, 47, x] + t)               # host
+                out.append([47, 47, 104, x, 47] + t)
+                out.append([47, 47, 104, 47, x, 58, 47] + t)   # drive letter after an authority
+                out.append([47, 99, 58, 47, x] + t)       # after a genuine drive letter
+        return out
+
+    def dictionary_uris(self, L):
+        out = [cps(u) for u in D_URIS]
+        for u in D_URIS:
+            for t in self.tails(L):
+                if t:
+                    out.append(cps(u) + t)
+                    out.append(cps(u) + [47] + t)
+        return out
+
     def generate(self, chk):
         rng = chk.rng
         cases = self.corpus()
         cases.append({"k": "none"})
+        # 0. dictionary x short exhaustive tails (paths through from/to/from, Windows spellings, URIs)
+        dpaths = self.dictionary_paths(chk.n(1, 2))
+        for p in dpaths:
+            cases.append({"k": "rt", "p": p})
+        for p in self.dictionary_paths(chk.n(0, 1)):
+            cases.append({"k": "wrt", "p": [92 if c == 47 else c for c in p]})
+            if p[0] == 47 and p[1:2] != [47]:
+                cases.append({"k": "wrt", "p": [92 if c == 47 else c for c in p[1:]]})     # "c:\\x", "K:\\x"
+        duris = self.dictionary_uris(chk.n(1, 2))
+        for u in duris:
+            cases.append({"k": "to", "u": u})
+        for u in duris[:chk.n(600, 6000)]:
+            cases.append({"k": "wto", "u": u})
+            cases.append({"k": "parse", "u": u})
+        for p in dpaths[::chk.n(7, 3)]:
+            cases.append({"k": "uwid", "p": p})
+            cases.append({"k": "uwr", "p": [47, 97], "fp": p, "n": None, "q": None, "f": None})
+            cases.append({"k": "uwr", "p": p, "fp": cps("/b"), "n": rng.choice([None, cps("localhost"), cps("h2")]),
+                          "q": None, "f": None})
         # 1. exhaustive absolute paths
         L = chk.n(4, 5)
         self.exhaustive = True
@@ -133,7 +217,7 @@ class C18(core.Property):
         pool = ALPHA + cps("bcxyzABZ19-_%25%2F%c3") + [0x7F, 0x80, 0x7FF, 0x800, 0xFFFF, 0x10000, 0x10FFFF, 0xD7FF, 0xE000,
                                                          9, 13, 0, 1, 31, 0x2100, 0xFF0F]
         longer = []
-        for _ in range(chk.n(3000, 40000)):
+        for _ in range(chk.n(2500, 40000)):
             kind = rng.randrange(8)
             n = rng.randint(3, 24)
             body = [rng.choice(pool) for _ in range(n)]
@@ -172,7 +256,7 @@ class C18(core.Property):
         # 5. malformed stream: random URI strings, model = implementation only
         upool = cps("file:/FILE//:///%%%2541cCeEfF09gG[]v1.?#;@ \t\n\x00\\~&=+") + [0xE9, 0x20AC, 0x1F60B, 0x2100, 0xFFFD]
         uris = []
-        for _ in range(chk.n(4000, 60000)):
+        for _ in range(chk.n(3000, 60000)):
             n = rng.randint(0, 14)
             u = [rng.choice(upool) for _ in range(n)]
             r = rng.randrange(10)
@@ -223,7 +307,7 @@ class C18(core.Property):
         for u in uris[:chk.n(1200, 15000)]:
             cases.append({"k": "uw", "win": rng.randrange(2), "u": u,
                           "parts": [rng.choice(allopts) if rng.random() < 0.4 else None for _ in range(6)]})
-        for L2 in range(chk.n(5, 6)):
+        for L2 in range(chk.n(4, 6)):
             for t in itertools.product(WIN_ALPHA, repeat=L2):
                 cases.append({"k": "wrt", "p": list(t)})
         wpool = WIN_ALPHA + cps("\\\\//bxyZ$.-_?#") + [0x20AC, 0x1F60B]
@@ -473,7 +557,8 @@ class C18(core.Property):
                 cands += [s[:i] + [97] + s[i + 1:] for i, x in enumerate(s) if x not in (97, 47)]
                 for t in cands:
                     # stay in the same class, so that a new failure is not reported as the known one
-                    if c["k"] == "rt" and self._empty_authority(t) != self._empty_authority(s):
+                    if c["k"] == "rt" and (self._empty_authority(t) != self._empty_authority(s)
+                                           or (s[:1] == [47]) != (t[:1] == [47])):   # ... and an absolute path
                         continue
                     d = dict(c); d[key] = t
                     yield d
@@ -481,6 +566,9 @@ class C18(core.Property):
     def search(self, chk):
         """bounded-exhaustive scope on the implementation against S (used when the tie or a proof broke)"""
         cases = [{"k": "rt", "p": p} for p in self.exhaustive_paths(4)] + [{"k": "none"}]
+        cases += [{"k": "rt", "p": p} for p in self.dictionary_paths(2)]
+        cases += [{"k": "wrt", "p": [92 if c == 47 else c for c in p]} for p in self.dictionary_paths(1)]
+        cases += [{"k": "uwid", "p": p} for p in self.dictionary_paths(1)]
         cases += [{"k": "to", "u": cps(s + t)} for s in SCHEMES for t in ("://h/p", ":///a", ":x")]
         res = core.evaluate(self, chk, cases)
         return [r for r in res if r["verdict"] == "violation"][:1]
